@@ -161,6 +161,9 @@ def run_harness(prop, name, file, fn, timeout, tier="quick", twin_timeout=60, en
                 if kw is None:
                     status, detail = ERROR, "cannot parse counterexample: " + m.message[:300]
                     break
+                import inspect as _insp
+                _params = list(_insp.signature(target).parameters)
+                kw = {(_params[int(k[4:])] if k.startswith("_pos") else k): v for k, v in kw.items()}
                 viol, txt = native_replay(path, fn, kw)
                 if not viol:
                     status = ERROR
